@@ -18,13 +18,13 @@ Qed.
 Lemma check_core (w : Rv) (tol : R) :
   (if oltb ROps tol (@oint ROps 0) then SdpValueError else
    if @nn_any (@nn_lt_vs ROps w (oopp ROps tol)) then SdpNonPSD else
-   if @nn_any (@nn_lt_vs ROps (@nn_abs_v ROps w) tol) then SdpNotDefinite else SdpDefinite) = @check_sdp ROps w tol.
+   if @nn_any (@nn_le_vs ROps (@nn_abs_v ROps w) tol) then SdpNotDefinite else SdpDefinite) = @check_sdp ROps w tol.
 Proof.
-  unfold check_sdp, nn_any, nn_lt_vs, nn_abs_v. rewrite !existsb_id_map.
+  unfold check_sdp, nn_any, nn_lt_vs, nn_le_vs, nn_abs_v. rewrite !existsb_id_map.
   change (@oint ROps 0) with (o0 ROps).
   destruct (oltb ROps tol (o0 ROps)); [reflexivity|].
   destruct (existsb (fun a => oltb ROps a (oopp ROps tol)) w); [reflexivity|].
-  replace (existsb (fun a => oltb ROps a tol) (map (oabs ROps) w)) with (existsb (fun a => oltb ROps (oabs ROps a) tol) w).
+  replace (existsb (fun a => oleb ROps a tol) (map (oabs ROps) w)) with (existsb (fun a => oleb ROps (oabs ROps a) tol) w).
   - reflexivity.
   - clear. induction w as [|a w IH]; [reflexivity|]. cbn [existsb map]. rewrite IH. reflexivity.
 Qed.
